@@ -56,11 +56,20 @@ def cases(tier, seed):
             out.append({'kind': 'program', 'seed': case_seed('C11', seed, prog.name, rep), 'params': {'prog': prog.name, 'P': 2 + rep % 2, 'D': [2, 1, 3][rep % 3]}})
     for i in range(80 if tier == 'quick' else 20000):
         out.append({'kind': 'program', 'seed': case_seed('C11', seed, 'comp', i), 'params': {'prog': 'comp', 'P': 2 + i % 2, 'D': 1 + i % 3}})
+    for k, (shape, D, P) in enumerate([((64, 64), 3, 7), ((200,), 2, 200), ((48, 50), 2, 29), ((300,), 4, 57)] if tier == 'quick' else
+                                      [((64, 64), 3, 7), ((200,), 2, 200), ((48, 50), 2, 29), ((300,), 4, 57), ((128, 65), 2, 5), ((40, 40), 5, 9),
+                                       ((1000,), 3, 23), ((17, 19, 7), 3, 11), ((120,), 3, 121), ((70000,), 1, 3), ((2, 2), 2, 9000)]):
+        for what in ('elementwise', 'reduction', 'unary-chain'):
+            out.append({'kind': 'program', 'seed': case_seed('C11', seed, 'large', what, k), 'params': {'prog': 'large:' + what, 'shape': list(shape), 'D': D, 'P': P}})
     # one direction whose whole polynomial is 1e10 times larger than the others (factorizations and linear algebra are
     # homogeneous): thresholds and tolerances inside the kernels have to be taken per direction, in both sweeps
     for prog in progs.cat():
         if ({'fact', 'linalg'} & prog.tags) and not ({'fancy', 'scale'} & prog.tags):
             for rep in range(1 if tier == 'quick' else 4):
+                if prog.name.startswith('svd') and rep % 2 == 1:
+                    # svd decides the rank with the absolute threshold epsilon = 1e-8 (a documented parameter): a direction scaled to
+                    # 1e-10 is, alone, a rank-0 input and outside "matrices with full rank"
+                    continue
                 out.append({'kind': 'program', 'seed': case_seed('C11', seed, prog.name, 'dirscale', rep),
                             'params': {'prog': prog.name, 'P': 2 + rep % 2, 'D': [2, 1, 3][rep % 3], 'dirscale': [1e10, 1e-10][rep % 2]}})
     return out
@@ -187,6 +196,13 @@ def _program(ctx, p, rng):
     D, P = p['D'], p['P']
     if p['prog'] == 'comp':
         desc, f = progs.random_program(rng, int(rng.integers(3, 10)), 'vector'); ins = [((3,), 'R')]; name = 'comp'; prog = None
+    elif p['prog'].startswith('large:'):
+        # many elements and/or many directions (an image-sized array, the N(N+1)/2 directions of a Hessian): kernels that work in
+        # blocks have to cover every direction
+        f = {'elementwise': lambda x: algopy.exp(0.3 * x) * algopy.sin(x) + x * x / (1.0 + x * x),
+             'reduction': lambda x: algopy.sum(algopy.exp(0.5 * x) * x) + algopy.dot(x.reshape((x.size,)) if hasattr(x, 'reshape') else x, algopy.cos(x).reshape((x.size,))),
+             'unary-chain': lambda x: algopy.exp(-algopy.log(1.0 + x * x)) - algopy.sqrt(2.0 + algopy.cos(x)) ** 3}[p['prog'].split(':')[1]]
+        ins = [(tuple(p['shape']), 'R')]; name = p['prog'] + ':%s' % 'x'.join(map(str, p['shape'])); prog = None
     else:
         prog = progs.by_name(p['prog']); f = prog.f; ins = prog.ins; name = prog.name
         if prog.maxD:
